@@ -36,6 +36,15 @@ MUTANTS += [
 ]
 
 
+G = "src/fandango/language/grammar/grammar.py"
+MUTANTS += [
+    ("generate_replaces_unparsable_value", G, "        if tree is None:\n            raise FandangoParseError(\n                f\"Could not parse {string!r} (generated by {self.generators[symbol]}) into {symbol.format_as_spec()}\"\n            )\n",
+     "        if tree is None:\n            tree = self.fuzz(symbol)\n", "Grammar.generate"),
+    ("generate_shares_sources", G, "        tree.sources = [p.deepcopy(copy_parent=False) for p in sources]", "        tree.sources = list(sources)", "Grammar.generate"),
+    ("generate_parses_under_start", G, "        tree = self.parse(string, symbol)\n        if tree is None:\n            raise FandangoParseError", "        tree = self.parse(string)\n        if tree is None:\n            raise FandangoParseError", "Grammar.generate"),
+    ("generate_accepts_lists", G, "        if not (isinstance(string, (str, bytes, int, tuple))):", "        if string is None:", "Grammar.generate"),
+]
+
 # harmless edits: must NOT fail an obligation (verified or undecided are both acceptable, an alarm is not)
 EQUIVALENT = [
     ("eq_terminal_named_leaf", N + "terminal.py", "                parent.add_child(DerivationTree(self.symbol))\n", "                leaf = DerivationTree(self.symbol)\n                parent.add_child(leaf)\n", "TerminalNode.fuzz"),
